@@ -6,6 +6,7 @@ implementation: every corrupted document must raise a lark error that carries a 
 file reached by import must give a non-zero exit status and no output file.
 """
 import os
+import re
 
 from . import c04, c17
 from .common import REPO, sx
@@ -85,6 +86,8 @@ class Corruptor:
 				picked = sorted(ctx.rng.sample(range(len(variants)), max_sites))
 			else:
 				picked = range(len(variants))
+			if 'missing-final-newline' == operator and variants:
+				picked = sorted(set(picked) | {len(variants) - 1})  # the end of the document is always among the sites
 			for site in picked:
 				corrupted, model_verdict = variants[site]
 				case = {'operator': operator, 'site': site, 'document': text, 'corrupted': corrupted, 'label': label}
@@ -104,7 +107,8 @@ class Corruptor:
 				self.with_blank_lines(text, corrupted, operator, site, label)
 				# the command-line / multi-file path gets a stratified sample: every operator is represented
 				if 'accepted' != verdict[0]:
-					bucket = self.cli_by_operator.setdefault(operator, [])
+					at_end = 'missing-final-newline' == operator and site == len(variants) - 1
+					bucket = self.cli_by_operator.setdefault(operator + (':end-of-document' if at_end else ''), [])
 					if len(bucket) < 40 and (len(bucket) < 4 or ctx.rng.random() < 0.05):
 						bucket.append(case)
 
@@ -173,6 +177,7 @@ def command_line(ctx, corruptor, how_many, subprocesses):
 
 
 # where the corrupted text stands among the files of the run: (files {relative path: text, CORRUPTED marks the corrupted one}, root)
+IMPORT_LINE = re.compile(r'^import "([^"\\]+)"', re.MULTILINE)
 CORRUPTED = object()
 CLI_LAYOUTS = {
 	# reached through two imports, in a sub-directory
@@ -205,6 +210,13 @@ def cli_case(ctx, impl, case, number, layout, as_subprocess):
 	directory = os.path.join(ctx.tmpdir(), f'cli{number}')
 	files, root = CLI_LAYOUTS[layout]
 	os.makedirs(os.path.join(directory, 'inc', 'zz'), exist_ok=True)
+	# what the document imports exists and is well formed: the corrupted file is the only reason for a rejection
+	for index, imported in enumerate(IMPORT_LINE.findall(case.get('document', ''))):
+		target = os.path.normpath(os.path.join(directory, 'inc', imported))
+		if target.startswith(os.path.join(directory, 'inc') + os.sep) and os.path.relpath(target, os.path.join(directory, 'inc')) not in files:
+			os.makedirs(os.path.dirname(target), exist_ok=True)
+			with open(target, 'wt', encoding='utf8') as outfile:
+				outfile.write(f'using ImportedStub{index} = uint8\n')
 	for relative, text in files.items():
 		target = os.path.join(directory, 'inc', relative)
 		os.makedirs(os.path.dirname(target), exist_ok=True)
